@@ -324,7 +324,7 @@ def render_text(case) -> Tuple[str, Dict[str, Any]]:
     lines = []
     for ins in case["prog"]:
         if ins[0] == "label":
-            lines.append(f"{ins[1]}:")
+            lines.append(f"{ins[1]}:" + ("  // a label comment" if sty.next(5) == 0 else ""))
             continue
         mn, ops = ins
         ops = list(ops)
